@@ -192,6 +192,8 @@ def check_bottleneck(rep, project):
     M, N = sym.Size(("rows", run.a)), sym.Size(("rows", run.b))
     if sym.equal(lp["space"].size, sym.add(M, N)):
         rep.discharged("MT-COVER", fi, lp["node"], "the listing loop visits every one of the M+N rows of the matrix")
+    elif unmodelled_in(lp["space"].size):
+        rep.unmodelled("MT-COVER", fi, lp["node"], "the number of rows the listing loop visits was not followed exactly")
     else:
         rep.refuted("MT-COVER", fi, lp["node"], f"the listing loop visits {sym.show(lp['space'].size)} rows instead of "
                                                 f"M+N: some points never appear in the matching")
@@ -255,6 +257,8 @@ def _bottleneck_sites(rep, run: Run, D: Blocks, sites):
         if k == 0:
             if sym.equal(lp["space"].size, sym.add(M, N)):
                 rep.discharged("MT-COVER", fi, lp["node"], "the listing loop visits every one of the M+N rows of the matrix")
+            elif unmodelled_in(lp["space"].size):
+                rep.unmodelled("MT-COVER", fi, lp["node"], "the number of rows the listing loop visits was not followed exactly")
             else:
                 rep.refuted("MT-COVER", fi, lp["node"], f"the listing loop visits {sym.show(lp['space'].size)} rows instead of "
                                                         f"M+N: some points never appear in the matching")
